@@ -121,6 +121,12 @@ def merge(results):
                 m["samples"].append(s)
         m["rejected_by_exception"] += r["rejected_by_exception"]
         m["notes"].update(r["notes"])
+        for lk in r.get("leaks") or []:
+            m["notes"].setdefault("process-wide library state changed by the workload (observer vmon/leaks.py; a lead, not a verdict)", [])
+            lst = m["notes"]["process-wide library state changed by the workload (observer vmon/leaks.py; a lead, not a verdict)"]
+            key = lk.split(":", 2)[:2]
+            if not any(x.split(":", 2)[:2] == key for x in lst):
+                lst.append(lk)
         m["exhaustive"].extend(r["exhaustive"])
         m["shard_walls"][name] = r["wall_s"]
         for q, a in (r.get("anchors") or {}).items():
